@@ -531,6 +531,7 @@ class IteratorQueue(IterableQueue[_ValueT]):
     self._returned = []
     self._exception = None
     self._exhausted = False
+    self._stop_requested = False
     self._max_enqueuer = max_enqueuer
     self._enqueue_start = 0
     self._enqueue_stop = 0
@@ -575,7 +576,8 @@ class IteratorQueue(IterableQueue[_ValueT]):
   @property
   def enqueue_done(self) -> bool:
     """Indicates whether there is ongoing enqueuer."""
-    if self._exception:
+    # A stop request is final: an enqueuer that starts later must not revive it.
+    if self._exception or self._stop_requested:
       return True
     # If max_enqueuer is not set, it means the no enqueuer has started yet.
     if not self._max_enqueuer:
@@ -762,6 +764,7 @@ class IteratorQueue(IterableQueue[_ValueT]):
     """
     exc = exc or StopIteration()
     with self._states_lock:
+      self._stop_requested = True
       self._enqueue_stop = self._enqueue_start = self._max_enqueuer
       if not is_stop_iteration(exc):
         self._exception = exc
